@@ -145,6 +145,14 @@ theorem proper_atom_unmatched (rec : Rec) (words : List String) (b : Nat) (cwd :
   simp only [atomDecisions, properDecisions]
   rw [simpleCmd_unmatched w P pat h rec _ (words.drop b) cwd r (by intro k; rw [List.drop_drop]; exact hP _)]
 
+/-- the second pass (the words after quote removal) of a command the rule matches in neither spelling -/
+theorem unquoted_atom_unmatched (rec : Rec) (words unquoted : List String) (b : Nat) (cwd : String) (r : Bool)
+    (hP : ∀ k, P (unquoted.drop k) cwd r = false) :
+    atomDecisions (withAllow w P pat) rec h (.unquotedCmd words unquoted b cwd r)
+      = atomDecisions w rec h (.unquotedCmd words unquoted b cwd r) := by
+  simp only [atomDecisions, unquotedDecisions]
+  rw [simpleCmd_unmatched w P pat h rec _ (unquoted.drop b) cwd r (by intro k; rw [List.drop_drop]; exact hP _)]
+
 /-- the command the rule does match: its command-proper atom is allowed … -/
 theorem proper_atom_matched (rec : Rec) (words : List String) (b : Nat) (cwd : String) (r : Bool)
     (hlt : b < words.length)
@@ -201,7 +209,8 @@ theorem unmatched_command_survives (rec : Rec) (n : Node) (cwd : String) (r : Bo
 /-- a tree none of whose commands the rule matches, and whose re-analysed texts are unaffected,
     is judged exactly as before -/
 theorem unmatched_tree_unchanged (rec : Rec) (n : Node) (cwd : String) (r : Bool)
-    (hP : ∀ words b c rm, Atom.proper words b c rm ∈ flat w.syn n cwd r → ∀ k, P (words.drop k) c rm = false) :
+    (hP : ∀ words b c rm, Atom.proper words b c rm ∈ flat w.syn n cwd r → ∀ k, P (words.drop k) c rm = false)
+    (hQ : ∀ words unq b c rm, Atom.unquotedCmd words unq b c rm ∈ flat w.syn n cwd r → ∀ k, P (unq.drop k) c rm = false) :
     (aNode (withAllow w P pat) rec h n cwd r).action = (aNode w rec h n cwd r).action := by
   rw [verdict_after_rule, verdict_eq_leaves w rec h n cwd r]
   unfold leaves
@@ -210,6 +219,7 @@ theorem unmatched_tree_unchanged (rec : Rec) (n : Node) (cwd : String) (r : Bool
   intro a ha
   cases a with
   | proper words b c rm => exact proper_atom_unmatched w P pat h rec words b c rm (hP words b c rm ha)
+  | unquotedCmd words unq b c rm => exact unquoted_atom_unmatched w P pat h rec words unq b c rm (hQ words unq b c rm ha)
   | inject _ _ _ => rfl
   | redir _ _ _ => rfl
   | text _ _ _ => rfl
